@@ -488,7 +488,7 @@ class Run(object):
         """CPython cross-check of the engine: every feasible path's model is run on the real code and must
         end in the state the engine predicted."""
         for unit in self.units:
-            if unit.kind != 'session' and unit.request is None:
+            if unit.kind != 'session' and (unit.request is None or getattr(unit, 'predicted', None) is None):
                 continue
             outs = [o for o in unit.result.outcomes if o.kind in ('return', 'raise')]
             ucap = cap if cap is not None else unit.witness_cap
